@@ -496,6 +496,10 @@ func (p Sqlite) CreateContact(newContact *alertutils.Contact) error {
 				return err
 			}
 		}
+	} else {
+		err := fmt.Errorf("CreateContact: contact name: %v already exist", newContact.ContactName)
+		log.Error(err.Error())
+		return err
 	}
 	return nil
 }
